@@ -53,15 +53,23 @@ Section Cover.
 
   Definition same_mode (c c' : ctx) : Prop := snd c' = snd c.
 
+  Lemma next_ctx_mode c t : snd (next_ctx cdres c t) = snd c.
+  Proof.
+    unfold next_ctx. destruct (snd c) eqn:E; [exact E|].
+    destruct (extract_cd_target t) as [tgt|]; [destruct (nonempty tgt); [reflexivity|]|];
+      destruct (changes_directory t); cbn [unknown_ctx snd]; exact E.
+  Qed.
+
   (* the elements of a sequence are each analysed, in a context with the same remote flag *)
   Lemma seq_ctxs_mode c l : forall p, In p (seq_ctxs cdres c l) -> same_mode c (fst p).
   Proof.
     revert c; induction l as [|t l IH]; intros c p; [intros []|].
     cbn [seq_ctxs]. intros [<-|H]; [reflexivity|].
-    apply IH in H. unfold same_mode in *. rewrite H. unfold next_ctx.
-    destruct (snd c) eqn:E; [exact E|]. destruct (extract_cd_target t) as [tgt|]; [|exact E].
-    destruct (nonempty tgt); [reflexivity|exact E].
+    apply IH in H. unfold same_mode in *. rewrite H. apply next_ctx_mode.
   Qed.
+  Lemma body_ctx_mode c b : snd (body_ctx c b) = snd c.
+  Proof. unfold body_ctx. destruct (negb (snd c) && b); reflexivity. Qed.
+
   Lemma seq_ctxs_all c l : forall t, In t l -> exists c', In (c', t) (seq_ctxs cdres c l).
   Proof.
     revert c; induction l as [|x l IH]; intros c t; [intros []|].
@@ -105,44 +113,47 @@ Section Cover.
       cbn [field]. constructor; [|constructor]. unfold ok in H. rewrite Forall_map, Forall_forall in H.
       exact (H (c', d) Hc'). }
     destruct (str_eqb k $"if") eqn:E3; [apply str_eqb_eq in E3; subst k|].
-    { rewrite walk_if in H. apply ok_combine in H. rewrite !ok_cons, ok_app in H. destruct H as [Hc [Ht [He Hr]]].
+    { rewrite walk_if in H. cbv zeta in H. apply ok_combine in H. rewrite !ok_cons, ok_app in H. destruct H as [Hc [Ht [He Hr]]].
       apply in_app_or in Hin as [Hi|Hi]; [|exact (Hred tt Hr Hi)].
-      apply in_tag in Hi as [-> Hd]. exists c. split; [reflexivity|]. cbn [field]. constructor; [|constructor].
-      apply in_app_or in Hd as [Hd|Hd]; [apply firstc_child in Hd; rewrite Hd in Hc; exact Hc|].
+      apply in_tag in Hi as [-> Hd].
+      apply in_app_or in Hd as [Hd|Hd].
+      { exists c. split; [reflexivity|]. cbn [field]. constructor; [|constructor].
+        apply firstc_child in Hd. rewrite Hd in Hc. exact Hc. }
+      eexists. split; [apply body_ctx_mode|]. cbn [field]. constructor; [|constructor].
       apply in_app_or in Hd as [Hd|Hd]; [apply firstc_child in Hd; rewrite Hd in Ht; exact Ht|].
       apply firstc_child in Hd. rewrite Hd in He. cbn [optional] in He. apply ok_cons in He. apply He. }
     destruct (str_eqb k $"while") eqn:E4; [apply str_eqb_eq in E4; subst k|].
-    { kinds. rewrite walk_while in H. apply ok_combine in H. rewrite !ok_cons in H. destruct H as [Hc [Hb Hr]].
+    { kinds. rewrite walk_while in H. cbv zeta in H. apply ok_combine in H. rewrite !ok_cons in H. destruct H as [Hc [Hb Hr]].
       apply in_app_or in Hin as [Hi|Hi]; [|exact (Hred tt Hr Hi)].
-      apply in_tag in Hi as [-> Hd]. exists c. split; [reflexivity|]. cbn [field]. constructor; [|constructor].
+      apply in_tag in Hi as [-> Hd]. eexists. split; [apply body_ctx_mode|]. cbn [field]. constructor; [|constructor].
       apply in_app_or in Hd as [Hd|Hd]; apply firstc_child in Hd; [rewrite Hd in Hc; exact Hc|rewrite Hd in Hb; exact Hb]. }
     destruct (str_eqb k $"until") eqn:E5; [apply str_eqb_eq in E5; subst k|].
-    { kinds. rewrite walk_until in H. apply ok_combine in H. rewrite !ok_cons in H. destruct H as [Hc [Hb Hr]].
+    { kinds. rewrite walk_until in H. cbv zeta in H. apply ok_combine in H. rewrite !ok_cons in H. destruct H as [Hc [Hb Hr]].
       apply in_app_or in Hin as [Hi|Hi]; [|exact (Hred tt Hr Hi)].
-      apply in_tag in Hi as [-> Hd]. exists c. split; [reflexivity|]. cbn [field]. constructor; [|constructor].
+      apply in_tag in Hi as [-> Hd]. eexists. split; [apply body_ctx_mode|]. cbn [field]. constructor; [|constructor].
       apply in_app_or in Hd as [Hd|Hd]; apply firstc_child in Hd; [rewrite Hd in Hc; exact Hc|rewrite Hd in Hb; exact Hb]. }
     cbn [orb] in Hin.
     destruct (str_eqb k $"for") eqn:E6; [apply str_eqb_eq in E6; subst k|].
-    { kinds. rewrite walk_for in H. apply ok_combine in H. rewrite ok_cons, ok_app in H. destruct H as [Hb [Hw Hr]].
+    { kinds. rewrite walk_for in H. cbv zeta in H. apply ok_combine in H. rewrite ok_cons, ok_app in H. destruct H as [Hb [Hw Hr]].
       apply in_app_or in Hin as [Hi|Hi].
-      - apply in_tag in Hi as [-> Hd]. exists c. split; [reflexivity|]. cbn [field]. constructor; [|constructor].
+      - apply in_tag in Hi as [-> Hd]. eexists. split; [apply body_ctx_mode|]. cbn [field]. constructor; [|constructor].
         apply firstc_child in Hd. rewrite Hd in Hb. exact Hb.
       - apply in_app_or in Hi as [Hi|Hi]; [|exact (Hred tt Hr Hi)].
         apply in_tag in Hi as [-> Hd]. exists c. split; [reflexivity|].
         unfold wparts in Hw. rewrite ok_flat_map in Hw. exact (Hw d Hd). }
     destruct (str_eqb k $"select") eqn:E7; [apply str_eqb_eq in E7; subst k|].
-    { kinds. rewrite walk_select in H. apply ok_combine in H. rewrite ok_cons, ok_app in H. destruct H as [Hb [Hw Hr]].
+    { kinds. rewrite walk_select in H. cbv zeta in H. apply ok_combine in H. rewrite ok_cons, ok_app in H. destruct H as [Hb [Hw Hr]].
       apply in_app_or in Hin as [Hi|Hi].
-      - apply in_tag in Hi as [-> Hd]. exists c. split; [reflexivity|]. cbn [field]. constructor; [|constructor].
+      - apply in_tag in Hi as [-> Hd]. eexists. split; [apply body_ctx_mode|]. cbn [field]. constructor; [|constructor].
         apply firstc_child in Hd. rewrite Hd in Hb. exact Hb.
       - apply in_app_or in Hi as [Hi|Hi]; [|exact (Hred tt Hr Hi)].
         apply in_tag in Hi as [-> Hd]. exists c. split; [reflexivity|].
         unfold wparts in Hw. rewrite ok_flat_map in Hw. exact (Hw d Hd). }
     cbn [orb] in Hin.
     destruct (str_eqb k $"for-arith") eqn:E8; [apply str_eqb_eq in E8; subst k|].
-    { rewrite walk_forarith in H. apply ok_combine in H. rewrite ok_cons, !ok_app in H. destruct H as [Hb [_ [_ [_ Hr]]]].
+    { rewrite walk_forarith in H. cbv zeta in H. apply ok_combine in H. rewrite ok_cons, !ok_app in H. destruct H as [Hb [_ [_ [_ Hr]]]].
       apply in_app_or in Hin as [Hi|Hi]; [|exact (Hred tt Hr Hi)].
-      apply in_tag in Hi as [-> Hd]. exists c. split; [reflexivity|]. cbn [field]. constructor; [|constructor].
+      apply in_tag in Hi as [-> Hd]. eexists. split; [apply body_ctx_mode|]. cbn [field]. constructor; [|constructor].
       apply firstc_child in Hd. rewrite Hd in Hb. exact Hb. }
     destruct (str_eqb k $"case") eqn:E9; [apply str_eqb_eq in E9; subst k|].
     { rewrite walk_case in H. apply ok_combine in H. rewrite !ok_app in H. destruct H as [Hw [Hp Hr]].
@@ -181,7 +192,7 @@ Section Cover.
       apply in_app_or in Hin as [Hi|Hi]; [|exact (Hred tt Hr Hi)].
       apply in_tag in Hi as [-> Hd]. exists c. split; [reflexivity|]. rewrite ok_flat_map in Hb. exact (Hb d Hd). }
     destruct (str_eqb k $"arith-cmd") eqn:E17; [apply str_eqb_eq in E17; subst k|].
-    { rewrite walk_arithcmd in H. apply ok_combine in H. rewrite ok_app in H. destruct H as [Hb Hr].
+    { rewrite walk_arithcmd in H. apply ok_combine in H. rewrite !ok_app in H. destruct H as [Hb [_ Hr]].
       apply in_app_or in Hin as [Hi|Hi]; [|exact (Hred tt Hr Hi)].
       apply in_tag in Hi as [-> Hd]. exists c. split; [reflexivity|]. rewrite ok_flat_map in Hb. exact (Hb d Hd). }
     destruct Hin.
@@ -191,7 +202,7 @@ Section Cover.
     forall r' d, In (r', d) (sub (RWord b) t) -> exists c', same_mode c c' /\ ok (field r' (ev d) c').
   Proof.
     destruct t as [k ss fs ks]. intros H r' d Hin. cbn [sub] in Hin. apply in_tag in Hin as [-> Hd].
-    rewrite wp_unfold in H. apply ok_app in H as [H _]. rewrite ok_flat_map in H.
+    rewrite wp_unfold in H. rewrite !ok_app in H. destruct H as [_ [H _]]. rewrite ok_flat_map in H.
     exists c. split; [reflexivity|exact (H d Hd)].
   Qed.
 
@@ -203,7 +214,7 @@ Section Cover.
     - apply in_tag in Hin as [-> Hd]. apply firstc_child in Hd. rewrite Hd in H. apply ok_cons in H as [H _].
       exists c. split; [reflexivity|]. cbn [field]. constructor; [exact H|constructor].
     - destruct (str_eqb k $"word").
-      + apply in_tag in Hin as [-> Hd]. rewrite wp_unfold in H. apply ok_app in H as [H _]. rewrite ok_flat_map in H.
+      + apply in_tag in Hin as [-> Hd]. rewrite wp_unfold in H. rewrite !ok_app in H. destruct H as [_ [H _]]. rewrite ok_flat_map in H.
         exists c. split; [reflexivity|exact (H d Hd)].
       + apply in_tag in Hin as [-> Hd]. apply ok_app in H as [_ H]. rewrite ok_flat_map in H.
         cbn [kids_of] in Hd. apply in_map_iff in Hd as [[l x] [<- Hx]].
@@ -300,13 +311,13 @@ Section Cover.
     destruct t as [k ss fs ks]. destruct r as [| |b| | |]; cbn [field raw_positions]; unfold is_kind; cbn [kind_of strs_of]; intros H s Hs.
     - destruct (str_eqb k $"for-arith") eqn:E; [|destruct Hs]. apply str_eqb_eq in E. subst k.
       apply ok_cons in H as [H _]. change (walk c (T $"for-arith" ss fs ks) = Allow) in H.
-      rewrite walk_forarith in H. apply ok_combine in H.
+      rewrite walk_forarith in H. cbv zeta in H. apply ok_combine in H.
       rewrite ok_cons, !ok_app in H. destruct H as [_ [H1 [H2 [H3 _]]]].
       destruct Hs as [<-|[<-|[<-|[]]]]; assumption.
     - rewrite exp_unfold in H. destruct (mem_str k SUBST_KINDS); [destruct Hs|].
       destruct (str_eqb k $"word"); [destruct Hs|].
       apply ok_app in H as [H _]. rewrite ok_flat_map in H. apply in_map_iff in Hs as [[l x] [<- Hx]]. exact (H (l, x) Hx).
-    - destruct b; [|destruct Hs]. rewrite wp_unfold in H. apply ok_app in H as [_ H].
+    - destruct b; [|destruct Hs]. rewrite wp_unfold in H. rewrite !ok_app in H. destruct H as [_ [_ H]].
       destruct (nonempty (children "parts" (T k ss fs ks))); [destruct Hs|]. cbn [andb negb] in H.
       destruct Hs as [<-|[]]. exact H.
     - destruct Hs.
